@@ -191,7 +191,10 @@ def handle (j : Json) : Except String Json := do
       | .ok Json.null => pure none
       | .ok v => do pure (some (← (← v.getArr?).toList.mapM ofCps))
       | .error _ => pure none
-    let q : DbReq := { srcSchema := srcSchema, inPlace := inPlace, names := names,
+    let autocast ← match j.getObjVal? "src_autocast" with
+      | .ok v => v.getBool?
+      | .error _ => pure false
+    let q : DbReq := { srcSchema := srcSchema, autocast := autocast, inPlace := inPlace, names := names,
                        schema := ← ofOptSchema j "schema", gzip := ← getBool j "gzip" }
     let watch ← (← getArr j "watch").mapM ofCps
     let (d, e) := writeDb MID q src dst
